@@ -141,6 +141,11 @@ def derivationSubtype (v : Value) : Option String :=
   | some u => ["Revision", "Quotation", "PrimarySource"].find? (fun l => u == provU l)
   | none => none
 
+/-- the last `prov:type` extra attribute that names Revision / Quotation / PrimarySource, if any -/
+def retypeOf (extras : List (QName × Value)) : Option String :=
+  extras.foldl (fun (acc : Option String) p =>
+    if isProv p.1 "type" then (match derivationSubtype p.2 with | some l => some l | none => acc) else acc) none
+
 /-- the block executed while `bnode is None`; `none` = a value outside the model. Returns (state, skip rest of
     this iteration). -/
 def relBlock (r : Record) (rs : RelSt) : Option (RelSt × Bool) :=
@@ -193,8 +198,7 @@ def relBlock (r : Record) (rs : RelSt) : Option (RelSt × Bool) :=
       | some sj =>
         if rs2.hasQ || rs2.ident.isSome then
           -- qualified pattern
-          let sub := r.extraAttrs.foldl (fun (acc : Option String) p =>
-            if isProv p.1 "type" then (match derivationSubtype p.2 with | some l => some l | none => acc) else acc) none
+          let sub := retypeOf r.extraAttrs
           let qualifier := sub.getD k.typeName
           let recUri := provU qualifier
           let st1 := match sub, rs2.ident with
@@ -210,27 +214,32 @@ def relBlock (r : Record) (rs : RelSt) : Option (RelSt × Bool) :=
         else some (rs2, false)
       | none => some (rs2, false)
 
-def encodeRelation (st : EncSt) (r : Record) (ident : Option Term) : Option EncSt :=
+/-- one iteration of the loop over `all_attributes` for a relation -/
+def relStep (r : Record) (rs : RelSt) (p : QName × Option Value) : Option RelSt :=
+  let afterBlock : Option (RelSt × Bool) := if rs.hasBnode then some (rs, false) else relBlock r rs
+  match afterBlock with
+  | none => none
+  | some (rs1, true) => some rs1
+  | some (rs1, false) =>
+    match p.2 with
+    | none => some rs1
+    | some v =>
+      if usedContains rs1.used p.1 then some rs1
+      else
+        match rs1.ident, encodeValue v with
+        | some idt, some obj => some { rs1 with st := rs1.st.add idt (.iri (relAttrPred r.kind p.1)) obj }
+        | _, _ => none
+
+/-- `formal_qualifiers`, `has_qualifiers` -/
+def hasQualifiers (r : Record) (ident : Option Term) : Bool :=
   let fa := r.formalAttrs
   let formalQualifiers := (List.range fa.length).any (fun i =>
     ((fa.getD i default).2).isSome && (ident.isSome || i > 1))
-  let hasQ := !r.extraAttrs.isEmpty || formalQualifiers
-  let init : RelSt := { st := st, ident := ident, hasQ := hasQ }
-  let res := (allAttributes r).foldlM (fun (rs : RelSt) (p : QName × Option Value) =>
-    let afterBlock : Option (RelSt × Bool) := if rs.hasBnode then some (rs, false) else relBlock r rs
-    match afterBlock with
-    | none => none
-    | some (rs1, true) => some rs1
-    | some (rs1, false) =>
-      match p.2 with
-      | none => some rs1
-      | some v =>
-        if usedContains rs1.used p.1 then some rs1
-        else
-          match rs1.ident, encodeValue v with
-          | some idt, some obj => some { rs1 with st := rs1.st.add idt (.iri (relAttrPred r.kind p.1)) obj }
-          | _, _ => none) init
-  res.map (·.st)
+  !r.extraAttrs.isEmpty || formalQualifiers
+
+def encodeRelation (st : EncSt) (r : Record) (ident : Option Term) : Option EncSt :=
+  let init : RelSt := { st := st, ident := ident, hasQ := hasQualifiers r ident }
+  ((allAttributes r).foldlM (relStep r) init).map (·.st)
 
 /-- one record of `encode_container` -/
 def encodeRecord (st : EncSt) (r : Record) : Option EncSt :=
